@@ -73,6 +73,45 @@ def _worker(args):
     return d
 
 
+def _run_pool(pid, tier, seed, tasks, jobs):
+    """tasks over worker processes; a worker that dies (a native solver library calling exit / crashing) must not hang the check: the tasks that were
+    lost are run again, each in a process of its own, and one that kills its process again is reported as inconclusive"""
+    from concurrent.futures import ProcessPoolExecutor, as_completed
+    from concurrent.futures.process import BrokenProcessPool
+
+    ctx = mp.get_context('spawn')
+    results = {}
+    pending = list(range(len(tasks)))
+    isolated = False
+    for _round in range(2):
+        if not pending:
+            break
+        lost = []
+        if not isolated:
+            with ProcessPoolExecutor(min(jobs, len(pending)), mp_context=ctx, initializer=_init_worker) as ex:
+                futs = {ex.submit(_worker, (pid, tier, seed, tasks[i])): i for i in pending}
+                for f in as_completed(futs):
+                    try:
+                        results[futs[f]] = f.result()
+                    except BrokenProcessPool:
+                        lost.append(futs[f])
+        else:
+            for i in pending:
+                with ProcessPoolExecutor(1, mp_context=ctx, initializer=_init_worker) as ex:
+                    try:
+                        results[i] = ex.submit(_worker, (pid, tier, seed, tasks[i])).result()
+                    except BrokenProcessPool:
+                        rep = Report(pid, LEVELS.get(pid, 'other'), tier, seed)
+                        rep.inconclusive.append({'name': str(tasks[i])[:120], 'why': 'the worker process died while running this task (crash or exit inside a native library)'})
+                        d = rep.export()
+                        d['task'] = str(tasks[i])[:160]
+                        d['task_wall'] = 0.0
+                        results[i] = d
+        pending = sorted(lost)
+        isolated = True
+    return [results[i] for i in range(len(tasks))]
+
+
 def main(argv=None):
     ap = argparse.ArgumentParser()
     ap.add_argument('pid')
@@ -97,9 +136,7 @@ def main(argv=None):
         if a.jobs <= 1 or len(tasks) <= 1:
             results = [_worker((pid, a.tier, seed, t)) for t in tasks]
         else:
-            ctx = mp.get_context('spawn')
-            with ctx.Pool(min(a.jobs, len(tasks)), initializer=_init_worker) as pool:
-                results = pool.map(_worker, [(pid, a.tier, seed, t) for t in tasks], chunksize=1)
+            results = _run_pool(pid, a.tier, seed, tasks, a.jobs)
         slow = sorted(((r['task_wall'], r['task']) for r in results), reverse=True)[:5]
         rep.extra['tasks'] = len(tasks)
         rep.extra['slowest_tasks'] = [{'task': t, 's': round(w, 1)} for w, t in slow]
